@@ -126,12 +126,13 @@ func (s *selectForUpdateExecutor) ExecContext(ctx context.Context, f exec.Callba
 				log.Error("rollback to %s failed, err %s", s.savepointName, rollerr.Error())
 				return nil, err
 			}
-		} else {
+		} else if s.tx != nil {
 			if rollerr := s.tx.Rollback(); rollerr != nil {
 				log.Error("rollback failed, err %s", rollerr.Error())
 				return nil, err
 			}
 		}
+		// neither a savepoint nor a local transaction exists when every attempt failed before it got one
 		return nil, err
 	}
 
@@ -156,11 +157,11 @@ func (s *selectForUpdateExecutor) doExecContext(ctx context.Context, f exec.Call
 	if originalAutoCommit {
 		// In order to hold the local db lock during global lock checking
 		// set auto commit value to false first if original auto commit was true
-		s.execContext.IsAutoCommit = false
 		s.tx, err = s.execContext.Conn.Begin()
 		if err != nil {
 			return nil, err
 		}
+		s.execContext.IsAutoCommit = false
 	} else if s.execContext.IsSupportsSavepoints {
 		// In order to release the local db lock when global lock conflict
 		// create a save point if original auto commit was false, then use the save point here to release db
